@@ -20,6 +20,7 @@ mod c07;
 mod c08;
 mod c09;
 mod c10;
+mod c11;
 mod c12;
 mod c13;
 mod c14;
@@ -46,6 +47,7 @@ fn main() {
         .or_else(|| c08::dispatch(&cmd, &args))
         .or_else(|| c09::dispatch(&cmd, &args))
         .or_else(|| c10::dispatch(&cmd, &args))
+        .or_else(|| c11::dispatch(&cmd, &args))
         .or_else(|| c12::dispatch(&cmd, &args))
         .or_else(|| c13::dispatch(&cmd, &args))
         .or_else(|| c14::dispatch(&cmd, &args))
